@@ -84,6 +84,32 @@ def _checkpoint_in_window(prog, res, g, f_, fa_, first_c, end_):
     return sorted(set(out))
 
 
+def wide_exp_rule(ctx, clause):
+    """Every exponential of a shift-degree-1 quantity in _INSIntegralState carries dtype=np.longdouble (shared by C15.5 and C05.6)."""
+    prog = ctx.prog
+    from ..canon import linform as _lf5
+    ist_ = prog.cls("nessai.evidence:_INSIntegralState")
+    deg1_ = ("self.logZ", "self._logZ", "self._weights", "self.log_evidence", "self._weights_lp", "self._weights_ns", "self.log_evidence_live_points", "self.log_evidence_nested_samples")
+    n_exp_ = 0
+    for f_ in ist_.methods.values():
+        for c_ in walk_no_nested(f_.node):
+            if not (isinstance(c_, ast.Call) and (call_name(c_) or "").split(".")[-1] in ("exp", "exp2", "expm1") and c_.args):
+                continue
+            try:
+                form_ = _lf5(c_.args[0]) or {}
+            except Exception:
+                form_ = None
+            if form_ is None:
+                continue
+            d_ = sum(v_ for k_, v_ in form_.items() if any(k_ == a_ or k_.startswith(a_ + "[") for a_ in deg1_))
+            if d_ == 0:
+                continue
+            n_exp_ += 1
+            wide_ = any(k_.arg == "dtype" and src(k_.value).split(".")[-1] in ("longdouble", "float128") for k_ in c_.keywords)
+            ctx.ob("R-DEG", clause, f_, "an exponential of a quantity that moves with a likelihood offset is taken in extended precision (dtype=np.longdouble)", wide_, f"`{src(c_)[:70]}` (shift degree {d_})" + ("" if wide_ else ": overflows to inf above log Z ~ 709 and underflows to 0 below ~ -745 in float64"), node=c_)
+    ctx.require(n_exp_ >= 2, f"only {n_exp_} absolute-scale exponentials found in _INSIntegralState (compute_uncertainty expected)")
+
+
 def run(ctx):
     prog = ctx.prog
     res = resolver(prog)
@@ -338,27 +364,7 @@ def run(ctx):
     # leaves log space to form the standard error sum((Z_i - Z)^2), and only the extended exponent range of
     # np.longdouble keeps that finite (and the ratio u / Z, which is offset-free, exact) for |log Z| beyond ~700.
     # Every exponential of a degree-1 quantity in _INSIntegralState therefore carries dtype=np.longdouble.
-    from ..canon import linform as _lf5
-    ist_ = prog.cls("nessai.evidence:_INSIntegralState")
-    deg1_ = ("self.logZ", "self._logZ", "self._weights", "self.log_evidence", "self._weights_lp", "self._weights_ns", "self.log_evidence_live_points", "self.log_evidence_nested_samples")
-    n_exp_ = 0
-    for f_ in ist_.methods.values():
-        for c_ in walk_no_nested(f_.node):
-            if not (isinstance(c_, ast.Call) and (call_name(c_) or "").split(".")[-1] in ("exp", "exp2", "expm1") and c_.args):
-                continue
-            try:
-                form_ = _lf5(c_.args[0]) or {}
-            except Exception:
-                form_ = None
-            if form_ is None:
-                continue
-            d_ = sum(v_ for k_, v_ in form_.items() if any(k_ == a_ or k_.startswith(a_ + "[") for a_ in deg1_))
-            if d_ == 0:
-                continue
-            n_exp_ += 1
-            wide_ = any(k_.arg == "dtype" and src(k_.value).split(".")[-1] in ("longdouble", "float128") for k_ in c_.keywords)
-            ctx.ob("R-DEG", "C15.5", f_, "an exponential of a quantity that moves with a likelihood offset is taken in extended precision (dtype=np.longdouble)", wide_, f"`{src(c_)[:70]}` (shift degree {d_})" + ("" if wide_ else ": overflows to inf above log Z ~ 709 and underflows to 0 below ~ -745 in float64"), node=c_)
-    ctx.require(n_exp_ >= 2, f"only {n_exp_} absolute-scale exponentials found in _INSIntegralState (compute_uncertainty expected)")
+    wide_exp_rule(ctx, "C15.5")
     ctx.floor("C15.5", 2)
     # the `ess` criterion equals its standard definition: every ESS implementation (overrides of the state's property
     # included) is the log-space Kish form - shared with C16.3
